@@ -94,11 +94,11 @@ type step struct {
 func (s step) String() string { return fmt.Sprintf("%s(%d)", s.Op, s.A) }
 
 type runner struct {
-	p     *parser.Parser
-	m     model
-	hist  []step
+	p                         *parser.Parser
+	m                         model
+	hist                      []step
 	crossed, backseek, hitEOF bool
-	desync bool // after a failed op the cursor is unspecified until resync
+	desync                    bool // after a failed op the cursor is unspecified until resync
 }
 
 func newRunner(data []byte, maxRead int, eofEarly bool) *runner {
